@@ -593,7 +593,7 @@ def check_property(root, pid, tier, seed):
                     if tags and pid not in tags:
                         out_of_scope.append("%s::%s — %s [tagged %s]" % (u["unit"], fl.get("function"), fl["message"], ",".join(sorted(tags))))
                         continue
-                    if not tags and (P.get("tag_only") or u.get("tag_only")):
+                    if not tags and (P.get("tag_only") or u.get("tag_only") or fl.get("function") in (u.get("tag_only_functions") or [])):
                         out_of_scope.append("%s::%s — %s [untagged; this property is raised only by obligations tagged %s]" % (u["unit"], fl.get("function"), fl["message"], pid))
                         continue
                     if not tags and scope is not None and fl.get("function") is not None and fl.get("function") not in scope:
